@@ -12,6 +12,9 @@
 (*    other keyword argument recorded as <<keyword, value>>;                 *)
 (*  - files('a.c') denotes its string arguments (as files of the current    *)
 (*    sub-directory);  subdir('d') continues in d/meson.build;               *)
+(*    a plain string that reaches a target - directly or through a variable  *)
+(*    assigned in ANOTHER build file - is a file of the TARGET's directory    *)
+(*    (Rewriter!Resolve); paths are compared in normal form (no "..");       *)
 (*  - project(...) gives the project keyword arguments and default options; *)
 (*  - the arms of an if statement are all walked, in textual order (the     *)
 (*    rewriter addresses every target that is written in the build files,   *)
@@ -42,7 +45,7 @@ PEval(node, env, dir) ==
            IN IF a.n = 1 \/ a.d # <<>> THEN Err
               ELSE IF AnyErr(vs) THEN FirstErr(vs)
               ELSE IF \E i \in 1..Len(vs) : vs[i].k \notin {"str", "file"} THEN Err
-              ELSE VArr([i \in 1..Len(vs) |-> IF vs[i].k = "file" THEN vs[i] ELSE VFile(Join(dir, vs[i].s))])
+              ELSE VArr([i \in 1..Len(vs) |-> IF vs[i].k = "file" THEN vs[i] ELSE VFile(Resolve("files", dir, dir, vs[i].s))])
       [] k = "arr" /\ node.c[1].d = <<>> /\ node.c[1].n = 0 ->
            LET vs == PEvalSeq(node.c[1].c, env, dir) IN
            IF AnyErr(vs) THEN FirstErr(vs) ELSE IF \E i \in 1..Len(vs) : vs[i].k = "void" THEN Err ELSE VArr(vs)
@@ -60,7 +63,10 @@ IsLiteral(n) == \/ n.k = "str"
                 \/ (n.k = "call" /\ n.v = "files" /\ \A i \in 1..Len(n.c[1].c) : IsLiteral(n.c[1].c[i]))
 
 Unknown == <<63>>                                                             \* "?" : not a file name
-PathOf(dir, v) == IF v.k = "file" THEN v.s ELSE IF v.k = "str" THEN Join(dir, v.s) ELSE Unknown
+\* the path resolution rule of Rewriter: a files() object carries the directory files() was written in (PEval was given
+\* that directory), a plain string is relative to the directory dir of the target that consumes it - wherever the list
+\* holding it was assigned
+PathOf(dir, v) == IF v.k = "file" THEN v.s ELSE IF v.k = "str" THEN Resolve("strings", dir, dir, v.s) ELSE Unknown
 PathsOf(dir, vs) == { PathOf(dir, vs[i]) : i \in 1..Len(vs) }
 
 KwNamed(kws, name) == SelectSeq(kws, LAMBDA kw : kw.c[1].v = name)
